@@ -238,6 +238,17 @@ def replay(ck, chunk):
                     if not (got >= base * (1 - 1e-15) and got <= (base + slack) * (1 + 1e-12)):
                         viol("penalty-sum:%s" % fam, "%s penalty (k=%s) is %r, the sum of the documented per-line terms is %r (+ at most %g of tolerance terms)" % (
                             fam, k, got, base, slack), pd)
+            # ---- the conditions joined by a coupler (join=and_): zero exactly where every line holds, positive elsewhere
+            if j % 4 == 1 and neq_unit:
+                from mystic.coupler import and_ as _pand
+                pj = comp.c.get(("join", text, sch.name, mode))
+                if pj is None:
+                    pj = comp.c[("join", text, sch.name, mode)] = ms.generate_penalty((ineqf, eqf), join=_pand, k=ks[j % nk])
+                gotj = float(pj(list(xin) if not hasattr(xin, "shape") else xin))
+                if (gotj == 0) != feasible or gotj < 0:
+                    viol("joined-penalty(and_):%s" % ("nonzero-on-feasible" if feasible else "not-positive"),
+                         "generate_penalty(conditions, join=and_) is %r at a point that %s" % (
+                             gotj, "satisfies every line" if feasible else "violates a line"), {"penalty": gotj})
             # ---- cross property: penalty(constraint(x)) == 0
             if c["ind"]:
                 cons = comp.constraint(text, sch, loc)
